@@ -589,7 +589,44 @@ func (p *impPkg) translateFunc(name string) string {
 }
 
 func runImp() {
-	for _, tg := range impTargets {
+	// Element.Exp of every field package (template-generated: the texts must be identical up to the package name, which the
+	// generated `rfl` lemmas of Gen/Imp/ExpAll.lean check)
+	targets := append([]impTarget{}, impTargets...)
+	var expNames []string
+	for _, d := range fieldDirs {
+		n := leanName(d)
+		expNames = append(expNames, n)
+		if n == "bn254_fr" {
+			continue
+		}
+		targets = append(targets, impTarget{dir: d, file: "element.go", ns: "Exp_" + n, out: "Imp/Exp_" + n + ".lean", funcs: []string{"Exp"}, elem: "Element"})
+	}
+	defer func() {
+		var b strings.Builder
+		b.WriteString("/- GENERATED by tools/goslp (imp.go) on every run. DO NOT EDIT.\n   Element.Exp of the 23 field packages: every translation is the same Lean term as the one of ecc/bn254/fr (match lemmas by rfl). -/\n")
+		for _, n := range expNames {
+			b.WriteString("import GnarkVerif.Gen.Imp.Exp_" + n + "\n")
+		}
+		b.WriteString("\nnamespace GV.Gen.Imp.ExpAll\n\n")
+		for _, n := range expNames {
+			if n == "bn254_fr" {
+				continue
+			}
+			fmt.Fprintf(&b, "theorem %s_loop_same : @Exp_%s.Exp.loop1 = @Exp_bn254_fr.Exp.loop1 := by\n  funext F mul one inv x e fuel z i\n  induction fuel generalizing z i with\n  | zero => rfl\n  | succ n ih => simp only [Exp_%s.Exp.loop1, Exp_bn254_fr.Exp.loop1, ih]\n", n, n, n)
+			fmt.Fprintf(&b, "theorem %s_same : @Exp_%s.Exp = @Exp_bn254_fr.Exp := by\n  funext F mul one inv z x k\n  simp only [Exp_%s.Exp, Exp_bn254_fr.Exp, %s_loop_same]\n\n", n, n, n, n)
+		}
+		b.WriteString("\n/-- the translated Exp of every field package, by package name -/\ndef allExp : List (String × ({F : Type} → (F → F → F) → F → (F → F) → F → F → Int → F)) := [\n")
+		for i, n := range expNames {
+			sep := ","
+			if i == len(expNames)-1 {
+				sep = ""
+			}
+			fmt.Fprintf(&b, "  (%q, @Exp_%s.Exp)%s\n", n, n, sep)
+		}
+		b.WriteString("]\n\ntheorem allExp_same : ∀ e ∈ allExp, @e.2 = @Exp_bn254_fr.Exp := by\n  intro e he\n  simp only [allExp, List.mem_cons, List.not_mem_nil, or_false] at he\n  rcases he with " + strings.TrimSuffix(strings.Repeat("rfl | ", len(expNames)), " | ") + " <;> first | rfl | (simp only []; first | " + strings.Join(sameNames(expNames), " | ") + ")\n\nend GV.Gen.Imp.ExpAll\n")
+		writeFile("Imp/ExpAll.lean", b.String())
+	}()
+	for _, tg := range targets {
 		impAbsParams, impAbsArgs = "", ""
 		if tg.elem != "" {
 			impAbsParams, impAbsArgs = " {F : Type} (mul : F → F → F) (one : F) (inv : F → F)", " mul one inv"
@@ -656,4 +693,14 @@ func runImp() {
 		writeFile(tg.out, b.String())
 		dieHook = nil
 	}
+}
+
+func sameNames(ns []string) []string {
+	var o []string
+	for _, n := range ns {
+		if n != "bn254_fr" {
+			o = append(o, "exact "+n+"_same")
+		}
+	}
+	return o
 }
